@@ -767,8 +767,22 @@ pub fn replay(path: &Path, quiet: bool) -> i32 {
     let project = ProjectRef { name: v["project"].as_str().unwrap_or("").into(), root: PathBuf::from(v["project_root"].as_str().unwrap_or("")), starknet: v["starknet"].as_bool().unwrap_or(false) };
     let plan: Plan = serde_json::from_value(v["plan"].clone()).unwrap_or_else(|e| harness_error(&format!("plan: {e}")));
     let mut c = Counters::default();
-    let reference = execute(&project, &Plan::reference(), &mut c);
-    let out = execute(&project, &plan, &mut c);
+    // A difference that comes from a source no seam controls (e.g. a std HashMap seeded by the OS)
+    // shows in some fresh processes and not in others: up to 6 trials; a controlled difference
+    // reproduces on the first.
+    let want0 = v["class"].as_str().unwrap_or("").to_string();
+    let mut reference = execute(&project, &Plan::reference(), &mut c);
+    let mut out = execute(&project, &plan, &mut c);
+    for trial in 1..10 {
+        if differences(&reference.obs, &out).iter().any(|(cl, _, _)| *cl == want0 || cl.ends_with(&format!("/{want0}"))) {
+            if trial > 1 && !quiet {
+                println!("reproduced on trial {trial} (the source of the difference is not under a seam)");
+            }
+            break;
+        }
+        reference = execute(&project, &Plan::reference(), &mut c);
+        out = execute(&project, &plan, &mut c);
+    }
     if let Ok(dir) = std::env::var("VERIF_DUMP_DIR") {
         let _ = std::fs::create_dir_all(&dir);
         for (k, v) in &reference.obs {
